@@ -2,6 +2,9 @@ package main
 
 import (
 	"fmt"
+	"github.com/consensys/gnark/backend/witness"
+	"github.com/consensys/gnark/constraint"
+	"github.com/consensys/gnark/frontend/cs/r1cs"
 	"math/big"
 	"os"
 	"strings"
@@ -33,6 +36,9 @@ type fieldCase struct {
 	// acceptReplay, if set, replays a disagreement as accept/reject decisions of the real code on
 	// concrete data; it returns a description of the reproduced disagreement or ""
 	acceptReplay func() string
+	// alias: run on the symbolic API in alias mode (compound results are accumulators that MulAcc
+	// extends in place, as gnark's builders are allowed to)
+	alias bool
 }
 
 type fctx struct {
@@ -120,6 +126,7 @@ func runFieldCase(r *Run, family string, c fieldCase, extraHooks map[string]hook
 	defer clearHooks()
 	api := newAPI(capPlain)
 	e := cur
+	e.AliasMode = c.alias
 	defer forgetChips()
 	w := newFieldRun(e)
 	fc := &fctx{api: api, e: e, chip: newChip(api), rb: ref.NewB(), w: w}
@@ -149,7 +156,26 @@ func runFieldCase(r *Run, family string, c fieldCase, extraHooks map[string]hook
 		return nil
 	}
 	if len(outs) != len(refs) {
-		r.Infra("%s: implementation returns %d values, reference %d", c.name, len(outs), len(refs))
+		// the number of results (constraints of a gate, accepted equalities, hash outputs) is itself part of
+		// the specification; confirm the count on the real engine before reporting
+		names, _, _, _, ee := engineInputs(c, extraHooks)
+		env := map[string]*big.Int{}
+		for i, n := range names {
+			env[n] = big.NewInt(int64(i + 2))
+		}
+		nReal := -1
+		if ee == "" {
+			id0 := len(caseReg) + 1
+			runCaseOnEngine(c, extraHooks, names, env)
+			if ent := caseReg[id0]; ent != nil {
+				nReal = ent.nOuts
+			}
+		}
+		if nReal >= 0 && nReal != len(refs) && !(c.acceptReplay != nil && nReal == 0) {
+			r.addViolationWithReplay(c.name, fmt.Sprintf("%s: the real code produces %d result values, the specification %d", c.name, nReal, len(refs)), map[string]any{"kind": "functional", "family": family, "case": c.name}, "gnark test engine on the real code")
+		} else {
+			r.Infra("%s: implementation returns %d values, reference %d (real engine: %d)", c.name, len(outs), len(refs), nReal)
+		}
 		return nil
 	}
 	q := newEqCheck(r, c.name, family, e, fc.rb)
@@ -194,6 +220,14 @@ func runFieldCase(r *Run, family string, c fieldCase, extraHooks map[string]hook
 					// these inputs with every output asserted equal to the reference's value
 					vals := func(name string, hi *big.Int) *big.Int {
 						return q.envVal(dr, &sym.Term{Name: name, Hi: hi})
+					}
+					if cc.alias && cc.acceptReplay == nil {
+						// alias mode is the worst case the API contract allows; whether gnark's R1CS builder
+						// really extends the accumulator in place here is decided on the compiled circuit
+						if m := sharedOperandReplay(cc, r); m != "" {
+							return &Violation{What: name + ": " + m, Replay: map[string]any{"kind": "functional", "family": family, "case": name}, Outcome: "circuit compiled with gnark's R1CS builder, honest inputs, reference outputs"}
+						}
+						return &Violation{Site: "benign:alias-not-exhibited", What: "in alias mode (every accumulator handed to api.MulAcc is extended in place) the result differs from the reference, but the circuit compiled with gnark's R1CS builder computes the reference's results: a latent dependence on the builder not reusing the storage, not a disagreement"}
 					}
 					if cc.acceptReplay != nil {
 						if m := cc.acceptReplay(); m != "" {
@@ -558,6 +592,11 @@ func runC08(r *Run) {
 		}})
 	}
 	var stats []any
+	for _, c := range append([]fieldCase{}, cases...) {
+		c.alias = true
+		c.name += " (alias mode)"
+		cases = append(cases, c)
+	}
 	for _, c := range cases {
 		q := runFieldCase(r, "extension-field", c, nil)
 		if q != nil {
@@ -641,6 +680,54 @@ func engineInputs(c fieldCase, hooks map[string]hookFn) (names []string, his []*
 	return
 }
 
+// runCaseOnR1CS compiles the case's real code with gnark's R1CS builder (the builder that extends
+// accumulators in place) and solves it with the given inputs and the reference's outputs; it
+// reports whether the compiled system accepts the true results.
+func runCaseOnR1CS(c fieldCase, names []string, env map[string]*big.Int, want []*big.Int) (bool, string) {
+	old, had := os.LookupEnv("USE_BIT_DECOMPOSITION_RANGE_CHECK")
+	os.Setenv("USE_BIT_DECOMPOSITION_RANGE_CHECK", "true")
+	defer func() {
+		if had {
+			os.Setenv("USE_BIT_DECOMPOSITION_RANGE_CHECK", old)
+		} else {
+			os.Unsetenv("USE_BIT_DECOMPOSITION_RANGE_CHECK")
+		}
+	}()
+	clearHooks()
+	in := make([]frontend.Variable, len(names))
+	for i, n := range names {
+		in[i] = env[n]
+	}
+	id := len(caseReg) + 1
+	caseReg[id] = &caseEntry{c: c, want: want}
+	circuit := &caseCircuit{ID: id, In: make([]frontend.Variable, len(in))}
+	witness := &caseCircuit{ID: id, In: in}
+	var err error
+	pm := catchPanic(func() {
+		quiet(func() {
+			var cs constraint.ConstraintSystem
+			cs, err = frontend.Compile(R, r1cs.NewBuilder, circuit)
+			if err != nil {
+				return
+			}
+			var w witnessT
+			w, err = frontend.NewWitness(witness, R)
+			if err != nil {
+				return
+			}
+			err = cs.IsSolved(w)
+		})
+	})
+	forgetChips()
+	if pm != "" {
+		return false, "panic: " + short(pm, 160)
+	}
+	if err != nil {
+		return false, short(err.Error(), 160)
+	}
+	return true, ""
+}
+
 // runCaseOnEngine executes the case's real code on gnark's test engine with the given input values
 // (hooks stay installed: they only supply opaque inputs / switch off sub-checks) and reports
 // whether all constraints are satisfied.
@@ -701,3 +788,5 @@ func extInvN(a [2]*big.Int) [2]*big.Int {
 func engineInputsSafe(c fieldCase, hooks map[string]hookFn) (names []string, his []*big.Int, atoms map[string]*sym.Term, refs []*ref.N, err string) {
 	return engineInputs(c, hooks)
 }
+
+type witnessT = witness.Witness
